@@ -463,7 +463,7 @@ def classify_build_error(m: onnx.ModelProto, e: BaseException) -> str:
     if cls == "ScopeError":
         return "name-clash:ScopeError"
     opset = next((o.version for o in m.opset_import if o.domain in ("", "ai.onnx")), 17)
-    if cls == "ValidationError" and opset < 14:
+    if cls == "ValidationError" and opset < 14 and ("Unrecognized attribute" in str(e) or "No Op registered" in str(e)):
         return "old-opset-not-converted:ValidationError"
     if any(o.name in ins for o in m.graph.output):
         return f"passthrough-output:{cls}"
@@ -572,15 +572,17 @@ def oracle_compose(m: onnx.ModelProto, form: str, seed: int) -> list[tuple[str, 
                 link = float_outs[0]
                 trips = rng.randrange(1, 4)
                 x0 = A[float_ins[0]]
+                cur = vals1[float_ins[0]]
+                for _ in range(trips):
+                    cur = direct({n: (cur if n in float_ins else vals1[n]) for n in ins})[link]
+                    if np.asarray(cur).shape != (2,):
+                        return fails  # the state changes shape at run time: not a legal Loop state here
 
                 def body(i, c, x):
                     am = {n: (x if n in float_ins else A[n]) for n in ins}
                     return [op.const(np.array(True)), apply(f, am, len(ins), [])[link]]
 
                 (final,) = op.loop(op.const(np.array(trips, np.int64)), None, v_initial=[x0], body=body)
-                cur = vals1[float_ins[0]]
-                for _ in range(trips):
-                    cur = direct({n: (cur if n in float_ins else vals1[n]) for n in ins})[link]
                 # build() wants a known shape for results; Loop's carried output may lose it
                 final = op.reshape(final, op.const(np.array([2], np.int64)))
                 results["res_final"], expected["res_final"] = final, np.asarray(cur).reshape(2)
@@ -619,6 +621,8 @@ def oracle_compose(m: onnx.ModelProto, form: str, seed: int) -> list[tuple[str, 
                 r1 = apply(f, A, npos, omit)
                 d1 = direct(vals1, omit)
                 link = float_outs[0]
+                if np.asarray(d1[link]).shape != (2,):
+                    return fails  # feeding it back is not a legal call at run time
                 A2 = {n: (r1[link] if n in float_ins else A[n]) for n in ins}
                 v2 = {n: (d1[link] if n in float_ins else vals1[n]) for n in ins}
                 r2 = apply(f, A2, len(ins), [])
@@ -948,7 +952,7 @@ def run(ck: core.Check):
         ck.leanchecker(["SpoxModel.Props.C08"])
 
     rng = ck.rng
-    n_hand, n_spox = ck.pick((220, 80), (2500, 800))
+    n_hand, n_spox = ck.pick((220, 80), (1500, 500))
     models, snaps, dropped = make_models(ck, n_hand, n_spox)
     ck.log(f"{len(models)} models generated ({dropped} invalid candidates dropped)")
     feature_hist: dict[str, int] = {}
@@ -959,7 +963,7 @@ def run(ck: core.Check):
     # ---- tie H: stages of inline(m)(call) + to_onnx, model vs real
     lits = L.Lits()
     reqs, reals, descr = [], [], []
-    n_forms = ck.pick(4, 8)
+    n_forms = ck.pick(4, 6)
     with warnings.catch_warnings():
         warnings.simplefilter("ignore")
         for mi, (_, meta) in enumerate(models):
@@ -1036,7 +1040,7 @@ def run(ck: core.Check):
 
     # ---- evaluator correspondence: Inline.evalModel (integer interpreter) vs onnxruntime
     ev_reqs, ev_expect = [], []
-    n_eval = ck.pick(200, 2000)
+    n_eval = ck.pick(200, 1500)
     tries = 0
     while len(ev_reqs) < n_eval and tries < 20 * n_eval:
         tries += 1
